@@ -118,6 +118,17 @@ func handle(r *Req) (resp Resp) {
 		setVisGlobals(r)
 		out, err := endpoints.ConvertIGScriptToVisualTree(r.Stmt, r.Id, "")
 		return withOut(Resp{"err": err.ErrorCode, "valid": json.Valid([]byte(out))}, out)
+	case "visd":
+		// endpoint-level: the parsed tree (dumped before printing) together with the endpoint's output
+		setVisGlobals(r)
+		nodes, perr := parser.ParseStatement(r.Stmt)
+		d := make([]string, len(nodes))
+		for i, n := range nodes {
+			d[i] = sx.DumpNode(n, 0)
+		}
+		setVisGlobals(r)
+		out, err := endpoints.ConvertIGScriptToVisualTree(r.Stmt, r.Id, "")
+		return withOut(Resp{"err": err.ErrorCode, "perr": perr.ErrorCode, "nodes": d, "valid": json.Valid([]byte(out))}, out)
 	case "bdump":
 		st, e := sx.ParseStmt(r.Tree)
 		if e != nil {
